@@ -16,7 +16,7 @@ namespace occa {
 
     void dontUseRefs();
     void addStreamTagRef(streamTag *s);
-    void removeStreamTagRef(streamTag *s);
+    bool removeStreamTagRef(streamTag *s);
     bool needsFree() const;
 
     //---[ Virtual Methods ]------------
